@@ -53,6 +53,13 @@ def words_and_labels_bounded(seed):
             # arguments: the closing switch follows the macro directly
             return '\\foreignlanguage{french}{%s \\LaTeX} ' % words(
                 5, 'french')
+        if kind == 'FO':
+            # an otherlanguage environment as the last thing inside a long
+            # insertion: two closing switches follow each other
+            return ('\\foreignlanguage{french}{%s\n'
+                    '\\begin{otherlanguage}{german}\n%s\n'
+                    '\\end{otherlanguage}\n} ' % (words(5, 'french'),
+                                                  words(5, 'german')))
         if kind == 'Sde':
             stack[-1] = 'german'
             return '\n\\selectlanguage{german}\n'
@@ -78,7 +85,8 @@ def words_and_labels_bounded(seed):
                                            words(2, stack[-1]))
         if kind == 'P':
             return '\n\n'
-    kinds = ['W', 'Fs', 'Fl', 'Sde', 'Sen', 'O', 'OO', 'On', 'FN', 'P', 'Fm']
+    kinds = ['W', 'Fs', 'Fl', 'Sde', 'Sen', 'O', 'OO', 'On', 'FN', 'P', 'Fm',
+             'FO']
     n, fails = 0, []
     for ln in range(1, 5):
         for combo in itertools.product(kinds, repeat=ln):
@@ -134,7 +142,7 @@ def words_and_labels_bounded(seed):
     return {'name': 'every-word-in-one-part-of-its-language',
             'bounded': True,
             'bound': 'all documents of 1-2 pieces, a 4th of those with 3 '
-                     'and a 60th of those with 4 pieces over 11 piece kinds',
+                     'and a 60th of those with 4 pieces over 12 piece kinds',
             'evaluations': n, 'failures': fails}
 
 
